@@ -46,7 +46,7 @@ def main():
         files = sorted(set(re.findall(r"^\+\+\+ b/(\S+)", open(patch).read(), re.M)))
         scratch = tempfile.mkdtemp(prefix="verif-benign-", dir="/tmp")
         try:
-            subprocess.run(["rsync", "-a", "--exclude", "target", "--exclude", ".git", os.environ.get("VERIF_REPO", "/repo") + "/", scratch + "/"], check=True)
+            subprocess.run(["rsync", "-a", "--exclude", "target", "--exclude", ".git", os.environ.get("VERIF_BASE_REPO", "/repo") + "/", scratch + "/"], check=True)
             r = subprocess.run(["patch", "-s", "-p1", "-i", patch], cwd=scratch)
             if r.returncode != 0:
                 return "%s APPLY-FAILED" % n, 1
